@@ -21,6 +21,9 @@ use std::backtrace::Backtrace;
 impl fmt::Display for E { fn fmt(&self, f: &mut fmt::Formatter<'_>) -> fmt::Result { f.write_str("E") } }
 impl Error for E {}
 #[derive(Debug)] pub struct NotErr(pub u8);
+pub trait Tr { type Assoc; }
+#[derive(Debug)] pub struct HoldsErr; impl Tr for HoldsErr { type Assoc = E; }
+#[derive(Debug)] pub struct HoldsNot; impl Tr for HoldsNot { type Assoc = NotErr; }
 pub fn addr_dyn(e: &(dyn Error + 'static)) -> usize { e as *const dyn Error as *const u8 as usize }
 pub fn addr<T>(t: &T) -> usize { t as *const T as *const u8 as usize }
 pub fn report(k: &str, src: Option<usize>, fields: &[usize]) {
@@ -45,15 +48,17 @@ def render(c, key, src_field=None):
     instantiated with an error type, every other one with a type that is no Error."""
     l = c["l"]
     named = c["named"]
-    gens = [f"T{i}" for i, f in enumerate(l) if f["ty"] == "generic"]
+    gens = [f"T{i}" for i, f in enumerate(l) if f["ty"] in ("generic", "assoc")]
+    gdecl = [f"T{i}" + (": Tr" if f["ty"] == "assoc" else "") for i, f in enumerate(l) if f["ty"] in ("generic", "assoc")]
     g = "<" + ", ".join(gens) + ">" if gens else ""
+    gd = "<" + ", ".join(gdecl) + ">" if gens else ""
     fields, vals, names = [], [], []
     for i, f in enumerate(l):
-        ty = {"err": "E", "generic": f"T{i}", "box": "Box<dyn Error + 'static>", "bt": "Backtrace"}[f["ty"]]
+        ty = {"err": "E", "generic": f"T{i}", "assoc": f"T{i}::Assoc", "box": "Box<dyn Error + 'static>", "bt": "Backtrace"}[f["ty"]]
         nm = f["name"] if f["name"] != "other" else f"f{i}"
         names.append(nm)
         is_src = src_field == i + 1
-        val = {"err": f"E({i})", "generic": (f"E({i})" if is_src else f"NotErr({i})"),
+        val = {"err": f"E({i})", "generic": (f"E({i})" if is_src else f"NotErr({i})"), "assoc": (f"E({i})" if is_src else f"NotErr({i})"),
                "box": f"Box::new(E({i})) as Box<dyn Error + 'static>", "bt": "Backtrace::disabled()"}[f["ty"]]
         if named:
             fields.append(f"{ATTR[f['attr']]}{nm}: {ty}")
@@ -73,23 +78,30 @@ def render(c, key, src_field=None):
         pat = " {}" if named else "()"
     addrs = ", ".join((f"addr_dyn(&**b{i})" if f["ty"] == "box" else f"addr(b{i})") for i, f in enumerate(l))
     if c["isVariant"]:
-        decl = f"#[derive(Debug, derive_more::Error)]\npub enum En{g} {{ V{body_fields}, Other }}"
+        decl = f"#[derive(derive_more::Debug, derive_more::Error)]\npub enum En{gd} {{ V{body_fields}, Other }}"
         ctor = f"En::V{init}"
         tyname = "En"
         mpat = f"En::V{pat}"
         extra = ", _ => vec![]"
     else:
         semi = "" if named else ";"
-        decl = f"#[derive(Debug, derive_more::Error)]\npub struct S{g}{body_fields}{semi}"
+        decl = f"#[derive(derive_more::Debug, derive_more::Error)]\npub struct S{gd}{body_fields}{semi}"
         ctor = f"S{init}"
         tyname = "S"
         mpat = f"S{pat}"
         extra = ""
+    ann_list = []
+    for i, f in enumerate(l):
+        if f["ty"] == "generic":
+            ann_list.append("_")
+        elif f["ty"] == "assoc":
+            ann_list.append("HoldsErr" if src_field == i + 1 else "HoldsNot")
+    ann = (": " + tyname + "<" + ", ".join(ann_list) + ">") if ann_list else ""
     return f"""use super::*;
 {decl}
-impl{g} fmt::Display for {tyname}{g} {{ fn fmt(&self, f: &mut fmt::Formatter<'_>) -> fmt::Result {{ f.write_str("x") }} }}
+impl{gd} fmt::Display for {tyname}{g} {{ fn fmt(&self, f: &mut fmt::Formatter<'_>) -> fmt::Result {{ f.write_str("x") }} }}
 pub fn run() {{
-    let v = {ctor};
+    let v{ann} = {ctor};
     let fields: Vec<usize> = match &v {{ {mpat} => vec![{addrs}]{extra} }};
     let src = Error::source(&v).map(addr_dyn);
     report({json.dumps(key)}, src, &fields);
@@ -99,7 +111,7 @@ pub fn run() {{
 def item_text(c):
     """plain item (for the in-process expansion)"""
     body = render(c, "x")
-    start = body.index("#[derive(Debug, derive_more::Error)]\n") + len("#[derive(Debug, derive_more::Error)]\n")
+    start = body.index("#[derive(derive_more::Debug, derive_more::Error)]\n") + len("#[derive(derive_more::Debug, derive_more::Error)]\n")
     end = body.index("\nimpl")
     return body[start:end]
 
@@ -158,7 +170,7 @@ def run(chk, tier, seed, replay):
             mods.append((c["_key"], render(c, c["_key"], src)))
         log(f"[C09] building {name}: {len(mods)} layouts")
         obs2, failed, br = vlib.run_case_crate(name, mods, prelude=PRELUDE, toolchain=tc, crate_attrs=attrs,
-                                               features=("error", "std"))
+                                               features=("error", "debug", "std"))
         for c in group:
             k = c["_key"]
             chk.cov["evaluations"] += 1
@@ -194,7 +206,7 @@ def run(chk, tier, seed, replay):
         snips = [(c["_key"], render(c, c["_key"])) for c in amb]
         per, br = vlib.verdict_crate("c09_reject", snips, prelude=PRELUDE, toolchain="nightly",
                                      crate_attrs="#![feature(error_generic_member_access)]\n#![allow(unused, dead_code)]",
-                                     features=("error", "std"))
+                                     features=("error", "debug", "std"))
         for c in amb:
             chk.cov["evaluations"] += 1
             if not [d for d in per[c["_key"]] if d["level"] == "error"]:
